@@ -360,7 +360,21 @@ func TestRace_ConcurrentQueue(t *testing.T) {
 		if rng.Intn(4) == 0 {
 			qq = u
 		}
-		switch rng.Intn(6) {
+		switch rng.Intn(7) {
+		case 6:
+			// the constructor with initial jobs starts their goroutines itself: construct, enqueue, wait (fresh queue)
+			if i%64 == 0 {
+				lim := []int{0, -1, 2, 50}[rng.Intn(4)]
+				jobs := make([]func(), 2+rng.Intn(40))
+				for k := range jobs {
+					jobs[k] = job
+				}
+				fresh := conc.NewConcurrentQueue(lim, jobs...)
+				fresh.Enqueue(job)
+				ctx, cancel := context.WithTimeout(context.Background(), time.Second)
+				_ = fresh.WaitIdle(ctx, nil)
+				cancel()
+			}
 		case 0, 1:
 			qq.Enqueue(job, job)
 		case 2:
